@@ -1,8 +1,8 @@
 (* GenEq/Fb_try_read_exact.v — tie T1: the definition regenerated from /repo (Gen/FbGen.v, untracked, rebuilt on every run by rs2v + vlib/translate.py)
    equals the model definition the theorems are about. *)
-From FB Require Import Sem.Base Model.Fb GenEq.Tac.
+From FB Require Import Sem.Base Model.Fb Facets.Fb GenEq.Tac.
 From FB Require Gen.FbGen.
 Open Scope Z_scope.
 
-Lemma gen_eq : forall chk dest s, FbGen.try_read_exact chk dest s = Fb.try_read_exact chk dest s.
+Lemma gen_eq : forall SIZE chk dest s, Inv SIZE s -> FbGen.try_read_exact SIZE chk dest s = Fb.try_read_exact chk dest s.
 Proof. gen_eq. Qed.
